@@ -319,7 +319,11 @@ impl H {
                 (Req::new("POST", &format!("/xs.context?context={}", id_str(c))), Class::Client4xx, "xs.context-outside-zero")
             }
             4 => (Req::new("POST", &path).header("xs-meta", b"!!!not-base64!!!").body(&body), Class::Client4xx, "xs-meta-bad-base64"),
-            5 => (Req::new("POST", &path).header("xs-meta", b64(&[0xff, 0xfe, 0x80]).as_bytes()).body(&body), Class::Client4xx, "xs-meta-bad-utf8"),
+            5 => {
+                // invalid UTF-8: as garbage, and inside a string literal of otherwise well-formed JSON
+                let raw: &[u8] = *self.rng().pick(&[&[0xffu8, 0xfe, 0x80][..], b"{\"a\":\"\xff\"}", b"{\"k\xc3\":1}", b"[\"ok\", \"\xe2\x28\xa1\"]", b"\"\xed\xa0\x80\""]);
+                (Req::new("POST", &path).header("xs-meta", b64(raw).as_bytes()).body(&body), Class::Client4xx, "xs-meta-bad-utf8")
+            }
             6 => (Req::new("POST", &path).header("xs-meta", b64(b"{not json").as_bytes()).body(&body), Class::Client4xx, "xs-meta-bad-json"),
             7 => (Req::new("POST", &path).header("xs-meta", &[b'e', 0xc3, 0xa9, 0xff, b'=']).body(&body), Class::Client4xx, "xs-meta-non-ascii-header"),
             8 => (Req::new("POST", &path).header("xs-meta", b"").body(&body), Class::Client4xx, "xs-meta-empty"),
